@@ -114,7 +114,7 @@ func init() {
 		ID:    "C26",
 		Level: "exploration",
 		Rule: "API histories on independent pipes.NewNamed() registries (40 histories run concurrently per worker, each waits out the real 2 s grace period): 3 names, 6-20 operations (create, close, delete, get, dump) from 1-4 goroutines, with double close, delete-after-close, close-after-delete, create during and after the grace period (PRNG sleeps up to 2.2 s), get of missing names; plus murex programs using `pipe`, `!pipe`, `<name>` and `runtime --pipes` with the worker kept idle for 2.6 s afterwards; " +
-			"oracle: (1) the worker process survives and prints no crash text; (2) per name, porcupine against a nondeterministic model (create ok iff absent; close/delete/get ok iff present; a closed pipe stays visible until it expires at some point of its grace period); (3) after quiescence every closed name is gone and every other created name is still present; non-trivial = a history closes or deletes a name that is closing, or >= 2 goroutines touch one name; distinct by history description",
+			"plus tight-race trials (8 goroutines released together from a spin barrier call CreatePipe with one name: exactly one may succeed and the name must then resolve); oracle: (1) the worker process survives and prints no crash text; (2) per name, porcupine against a nondeterministic model (create ok iff absent; close/delete/get ok iff present; a closed pipe stays visible until it expires at some point of its grace period); (3) after quiescence every closed name is gone and every other created name is still present; non-trivial = a history closes or deletes a name that is closing, or >= 2 goroutines touch one name; distinct by history description",
 		Assumptions: []string{"expiry may happen at any moment after Close (the statement gives no lower bound); it must have happened 2.6 s after the last operation", "a porcupine timeout is inconclusive"},
 		Technique:   "runtime monitoring: recorded concurrent histories checked per name for linearizability (porcupine v1.3.0, nondeterministic model) plus quiescent-state and process-survival checks",
 		Run: func(x *Ctx) {
@@ -178,10 +178,16 @@ func init() {
 				b.WriteString("!pipe " + n1 + "\n!pipe " + n2 + "\nout END\n")
 				cases = append(cases, &proto.Case{ID: fmt.Sprintf("c26-prog-%d", i), Op: "prog", Block: b.String(), TimeoutMs: 60000, IdleMs: 2600})
 			}
+			// tight-race trials: 8 goroutines released together create the same name
+			cases = append(cases, burstCases(x, "c26.burst", x.Pick(16, 64), x.Pick(3000, 40000), 8)...)
 			x.RunAll(pool, cases)
 		},
 		Check: func(x *Ctx, c *proto.Case, r *proto.Result) {
 			if x.Bad(c, r) {
+				return
+			}
+			if c.Op == "c26.burst" {
+				burstCheck(x, c, r, "namedpipe:concurrent-create-not-exclusive", "concurrent CreatePipe calls for one name")
 				return
 			}
 			if c.Op == "prog" {
